@@ -8,6 +8,10 @@ it hold, each executed on stubs:
                     the result reader and the wake-up reader are waited on; sentinel-only readiness => broken with
                     TerminatedWorkerError; after terminate_broken every pending future failed with it, flags broken,
                     every worker killed, nothing pending.
+  submit_race/<n> (S) ProcessPoolExecutor.submit (real code, stub executor sharing flags and pending items) issued at a
+                    symbolic statement boundary of terminate_broken: a call dispatching while the death is being handled
+                    either gets the TerminatedWorkerError from submit or a future that terminate_broken fails - never a
+                    future nobody will complete, never a plain "shut down" error.
   exitcode (T)      the exit-code formatting used in that error message, symbolic exit code in [-70, 260]: never raises.
   reuse (S)         get_reusable_executor / _resize on a stub executor class: broken or shut down => a new instance,
                     otherwise the same instance resized to exactly the requested worker count (grow and shrink).
@@ -167,6 +171,122 @@ def ob_manager(n_pending: int, r_ready: bool, w_ready: bool, s0: bool, s1: bool,
     rk = H.select(recv_kind, 0, 2)
     ok = _manager_step(nw, npend, bool(r_ready), bool(w_ready), [bool(x) for x in s_mask], [bool(x) for x in a_mask], rk)
     return H.verdict(ok)
+
+
+def _submit_race(n_workers, n_pending, k, flavour):
+    """terminate_broken (real) on a stub manager; one ProcessPoolExecutor.submit (real, on a stub executor sharing the
+    flags and the pending-work dict) issued by the caller at hook #k: before terminate_broken, before each
+    future.set_exception, before pending.clear(), before each kill, before join_executor_internals, or after it.
+    flavour 0: death noticed now (terminate_broken runs); 1: the executor was shut down, not broken."""
+    import queue
+    import joblib.externals.loky.process_executor as pe
+    hooks = {"n": 0}
+    outcome = {}
+    bpe = pe.TerminatedWorkerError("a worker died")
+    flags = pe._ExecutorFlags(threading.Lock())
+
+    def fn():
+        return 1
+
+    def do_submit():
+        try:
+            outcome["future"] = pe.ProcessPoolExecutor.submit(ex, fn)
+        except BaseException as e:              # noqa
+            outcome["raised"] = e
+
+    def hook(tag):
+        if hooks["n"] == k:
+            outcome["at"] = tag
+            do_submit()
+        hooks["n"] += 1
+
+    class Fut(Future):
+        def set_exception(self, exc):
+            hook("before failing a pending future")
+            return Future.set_exception(self, exc)
+
+    class Pending(dict):
+        def clear(self):
+            hook("before pending_work_items.clear()")
+            return dict.clear(self)
+
+    procs = {100 + i: Proc(i, i != 0, None if i != 0 else -9) for i in range(n_workers)}
+    futures = [Fut() for _ in range(n_pending)]
+    pending = Pending((i, types.SimpleNamespace(future=fu)) for i, fu in enumerate(futures))
+    ex = types.SimpleNamespace(_flags=flags, _pending_work_items=pending, _work_ids=queue.Queue(), _queue_count=n_pending,
+                               _executor_manager_thread_wakeup=types.SimpleNamespace(wakeup=lambda: None),
+                               _ensure_executor_running=lambda: None)
+    me = types.SimpleNamespace(
+        result_queue=types.SimpleNamespace(close=lambda: None),
+        thread_wakeup=types.SimpleNamespace(clear=lambda: None, close=lambda: None),
+        processes=procs, pending_work_items=pending, executor_flags=flags,
+        shutdown_lock=threading.Lock(), processes_management_lock=threading.Lock(),
+        call_queue=types.SimpleNamespace(close=lambda: None, join_thread=lambda: None, put_nowait=lambda x: None,
+                                         full=lambda: False, _maxsize=10),
+    )
+    T = pe._ExecutorManagerThread
+    for nm in ("kill_workers", "shutdown_workers", "get_n_children_alive"):
+        setattr(me, nm, types.MethodType(getattr(T, nm), me))
+
+    def join_internals():
+        hook("before join_executor_internals")
+        return T.join_executor_internals(me)
+    me.join_executor_internals = join_internals
+    saved = (pe.kill_process_tree,)
+    import joblib.externals.loky.backend.utils as lu
+    saved_sleep = lu.time
+    lu.time = types.SimpleNamespace(sleep=lambda s: None)
+
+    def kill(p):
+        hook("before killing worker %d" % p.pid)
+    pe.kill_process_tree = kill
+    try:
+        hook("before terminate_broken")
+        if flavour == 0:
+            T.terminate_broken(me, bpe)
+        else:
+            flags.flag_as_shutting_down()
+        hook("after terminate_broken returned")
+        hook("later")
+    finally:
+        pe.kill_process_tree, = saved
+        lu.time = saved_sleep
+    if "at" not in outcome:
+        return True                  # hook index beyond this run's hooks
+    where = "submit %s (%d workers, %d pending)" % (outcome["at"], n_workers, n_pending)
+    if "raised" in outcome:
+        e = outcome["raised"]
+        if flavour == 0 and e is not bpe:
+            H.note("%s on a broken executor raised %s: %s instead of the TerminatedWorkerError" % (where, type(e).__name__, e))
+            return False
+        if flavour == 1 and not isinstance(e, pe.ShutdownExecutorError):
+            H.note("%s on a shut down executor raised %r" % (where, e))
+            return False
+        return True
+    fu = outcome["future"]
+    if flavour == 1:
+        if outcome["at"] != "before terminate_broken":
+            H.note("%s was accepted by a shut down executor" % where)
+            return False
+        return True
+    if not fu.done() or fu.exception() is not bpe:
+        H.note("%s was accepted but its future is never completed: the call waits for ever" % where)
+        return False
+    return True
+
+
+def ob_submit_race(n_pending: int, k: int, flavour: int) -> bool:
+    """
+    pre: 0 <= n_pending <= 3
+    pre: 0 <= k <= 12
+    pre: 0 <= flavour <= 1
+    post: _
+    """
+    H.enter()
+    nw = H.P("n_workers")
+    npend, kk, fl = H.select(n_pending, 0, 3), H.select(k, 0, 12), H.select(flavour, 0, 1)
+    with H.native():
+        return H.verdict(_submit_race(nw, npend, kk, fl))
 
 
 def ob_exitcode(e: int) -> bool:
@@ -360,6 +480,11 @@ def obligations(tier, seed):
         obs.append({"name": "manager/%d_workers" % nw, "fn": "ob_manager", "mode": "T", "params": {"n_workers": nw},
                     "timeout": 600, "bounds": "%d workers: readiness of result / wake-up / each sentinel, liveness, recv in "
                                               "{result, remote traceback, raises}, 0..3 pending items" % nw})
+    for nw in (1, 3):
+        obs.append({"name": "submit_race/%d_workers" % nw, "fn": "ob_submit_race", "mode": "S", "params": {"n_workers": nw},
+                    "timeout": 300, "bounds": "one submit() by the calling thread at any statement boundary of terminate_broken "
+                                              "(%d workers, 0..3 pending items): it raises the TerminatedWorkerError or its "
+                                              "future is failed with it; a shut down executor raises ShutdownExecutorError" % nw})
     obs.append({"name": "exitcode", "fn": "ob_exitcode", "mode": "T", "timeout": 300,
                 "bounds": "exit code symbolic in [-66, 12] or [254, 256]"})
     obs.append({"name": "reuse", "fn": "ob_reuse", "mode": "S", "timeout": 300,
